@@ -158,6 +158,21 @@ def bounded(tier, seed, repo_root):
     rejected = 0
     corp = dict(CORPUS)
     corp['plist'] = _plist_corpus()
+    if tier != 'quick':
+        # generated documents (nested containers, every scalar kind, non-ASCII text) serialised with each library's dumper
+        import yaml
+        from vlib import docs as D
+        rnd = random.Random(seed)
+        atoms = [0, -3, 2.5, True, None, "", "caf\u00e9", "a b", "\u4e2d", "x\ty"]
+        pool = D.enum_docs(5, atoms=atoms, keys=['k', '\u00fc', 'a b'], max_width=3)
+        sample = rnd.sample(pool, min(len(pool), 40))
+        corp = {k: list(v) for k, v in corp.items()}
+        for doc in sample:
+            corp['json'].append(json.dumps(doc, ensure_ascii=False))
+            corp['json5'].append(json.dumps(doc, ensure_ascii=False))
+            corp['yaml'].append(yaml.safe_dump(doc, allow_unicode=True))
+            if 'None' not in repr(doc) and isinstance(doc, (list, dict)):
+                corp['plist'].append(plistlib.dumps(doc).decode())
     stride = 2 if tier == 'quick' else 1
     for fmt, texts in corp.items():
         for t in texts:
